@@ -38,6 +38,9 @@ func (c *Case) actionText(i int, lang string) string {
 		return ""
 	}
 	txt := fmt.Sprintf("vhLogR(%d)", i+1)
+	if lang == "go" && c.NestRule == i+1 {
+		txt = "vhNest(); " + txt
+	}
 	if lang == "goctx" { // context experiments: the action runs inside a method of the context c
 		txt = fmt.Sprintf("vhLogRc(c, %d)", i+1)
 		lang = "go"
